@@ -82,6 +82,22 @@ def run_history(h):
 
     ListBackend, NoSnap = _backends()
     JS.SNAPSHOT_INTERVAL = 2
+    import os as real_os
+
+    PID = [1000]
+    pid_of = {}
+
+    class OsShim:                      # os.getpid() of the simulated process the object lives in (fork emulation)
+        def __getattr__(self, name):
+            return getattr(real_os, name)
+
+        @staticmethod
+        def getpid():
+            return PID[0]
+    JS.os = OsShim()
+
+    def enter(o):
+        PID[0] = pid_of.get(o, 1000)
     backend = ListBackend()
     shared = Shared()
     objs = {}          # object id -> (kind, thing, identity)
@@ -91,9 +107,11 @@ def run_history(h):
         st = JournalStorage(backend)
         objs[w] = ("storage", st, w)
     next_obj = 100
+    forks = []
     rps = {w: _replayer(objs[w][1], shared) for w in objs}
 
     def view(o):
+        enter(o)
         kind, thing, _ = objs[o]
         if kind == "storage":
             return rps[o].post(), thing._replay_result.log_number_read
@@ -103,15 +121,39 @@ def run_history(h):
         e = step["e"]
         if e == "issue":
             o = step["w"]
+            if step.get("fork_pick") is not None and forks:
+                o = forks[step["fork_pick"] % len(forks)]
             rp = rps[o]
             op = step["op"]
             if ("s" in op and rp.stale_study(op["s"])) or ("t" in op and rp.stale_trial(op["t"])):
                 continue
+            enter(o)
             ret, raw = rp.call(op)
             v, k = view(o)
             events.append({"e": "issue", "o": o, "w": o, "op": op, "ret": ret, "k": k, "view": v})
+        elif e == "fork":
+            # what a child process holds after fork(): the same JournalStorage object (same uuid prefix, same main-thread
+            # ident), its own copy of the replayed state, another process id
+            import copy
+            import threading
+
+            src = step["w"]
+            if src not in objs or objs[src][0] != "storage":
+                continue
+            parent = objs[src][1]
+            child = copy.copy(parent)
+            child._replay_result = copy.deepcopy(parent._replay_result)
+            child._thread_lock = threading.Lock()
+            next_obj += 1
+            objs[next_obj] = ("storage", child, next_obj)
+            pid_of[next_obj] = 2000 + next_obj
+            rps[next_obj] = _replayer(child, shared)
+            step["_o"] = next_obj
+            forks.append(next_obj)
         elif e == "sync":
             o = step["o"]
+            if step.get("fork_pick") is not None and forks:
+                o = forks[step["fork_pick"] % len(forks)]
             if o not in objs or objs[o][0] != "storage":
                 continue
             try:
@@ -126,6 +168,7 @@ def run_history(h):
             res = JS.JournalStorageReplayResult(objs[w][1]._worker_id_prefix)
             next_obj += 1
             objs[next_obj] = ("result", res, w)
+            pid_of[next_obj] = pid_of.get(w, 1000)
             step["_o"] = next_obj
         elif e == "restore":
             # a raw replay object restored from the current snapshot, identity of worker w
@@ -138,6 +181,7 @@ def run_history(h):
             res._last_created_trial_id_by_this_process = -1
             next_obj += 1
             objs[next_obj] = ("result", res, w)
+            pid_of[next_obj] = pid_of.get(w, 1000)
             v, k = view(next_obj)
             events.append({"e": "apply", "o": next_obj, "w": w, "n": k, "k": k, "view": v, "err": "none"})
         elif e == "apply":
@@ -151,6 +195,7 @@ def run_history(h):
             if n == 0:
                 continue
             err = "none"
+            enter(o)
             try:
                 res.apply_logs(unread[:n])
             except Exception as ex:  # the class is the observation
@@ -188,9 +233,12 @@ def gen_history(rng: random.Random, hid, n_steps=22):
             while op["a"].startswith("get_"):
                 op = g.op()
             g.note(op)
-            steps.append({"e": "issue", "w": rng.randint(1, workers), "op": op})
+            steps.append({"e": "issue", "w": rng.randint(1, workers), "op": op,
+                          "fork_pick": rng.randint(0, 3) if rng.random() < 0.3 else None})
+        elif x < 0.66:
+            steps.append({"e": "fork", "w": rng.randint(1, workers)})
         elif x < 0.72:
-            steps.append({"e": "sync", "o": rng.randint(1, workers)})
+            steps.append({"e": "sync", "o": rng.randint(1, workers), "fork_pick": rng.randint(0, 3) if rng.random() < 0.4 else None})
         elif x < 0.78:
             steps.append({"e": "direct", "w": rng.randint(1, workers)})
         elif x < 0.82:
@@ -208,6 +256,8 @@ def gen_history(rng: random.Random, hid, n_steps=22):
     steps.append({"e": "open", "how": "fresh"})
     for w in range(1, workers + 1):
         steps.append({"e": "sync", "o": w})
+    for i in range(3):
+        steps.append({"e": "sync", "o": 1, "fork_pick": i})
     return {"hid": hid, "workers": workers, "steps": steps}
 
 
